@@ -438,6 +438,10 @@ fn consulted_positions_opts(prog: &Program, t: &Ty, args: Option<&[Ty]>, out: &m
             if let Some(first) = inner.first_mut() {
                 if matches!(t, Alias(..)) {
                     first.1 = false;
+                } else if !first.1 {
+                    // ... but its id is that of `Box<X>`'s identity, X taken verbatim (one step):
+                    // `Box<String>` is the entry of `String`, not of `str`
+                    first.0 = t.clone();
                 }
             }
             out.extend(inner);
